@@ -70,6 +70,7 @@ Class ArithLaws (N : NumOps) (L : NumLaws N) := {
   div_one : forall x, ok x -> ok (ndiv x n1) /\ rk (ndiv x n1) == rk x;
 }.
 
+
 Section Derived.
   Context {N : NumOps} {L : NumLaws N}.
 
